@@ -126,7 +126,7 @@ func (r *Result) Violate(v Violation) {
 			n++
 		}
 	}
-	if n >= 5 {
+	if n >= maxViol() {
 		return
 	}
 	b, _ := json.MarshalIndent(v, "", " ")
@@ -158,4 +158,15 @@ func (r *Result) Write(path string) error {
 		return err
 	}
 	return os.WriteFile(path, b, 0o644)
+}
+
+func maxViol() int {
+	if v := os.Getenv("VERIF_MAXVIOL"); v != "" {
+		var n int
+		fmt.Sscan(v, &n)
+		if n > 0 {
+			return n
+		}
+	}
+	return 5
 }
